@@ -69,3 +69,22 @@ PROPS["C07"] = {
     "trusted": FRAME_TRUSTED,
     "assumptions": ["offsets are non-negative (the property quantifies over 0..len)"],
 }
+
+STREAM_TRUSTED = ["model of bufio.Scanner.Scan (Go 1.23.5, default 64 KiB limit) in coq/Lib/Bufio.v: validated against the real bufio on every run by the correspondence, not verified",
+                  "chunking reader model: a read returns min(requested, room, remaining) bytes; 0-size entries are empty reads; the terminal error comes with the last data or by its own read"]
+
+PROPS["C01"] = {
+    "level_text": "Theorems (Props/C01.v), no bound on stream length, number of frames or schedule: (1) a stream of well-formed frames separated by pair-free noise has exactly those frames as its reference segmentation (induction over the frame list); (2) for every byte stream, every schedule of read sizes >= 0 with at most 100 consecutive empty reads, every terminal error and both (n, err) conventions, the statement-level model of bufio.Scanner.Scan composed with the model of ScanMessages delivers exactly the reference segmentation then the terminal error (induction on fuel with the buffer-geometry invariant), hence any two schedules agree. Models tied to ScanMessages and to the real bufio.Scanner by alphabet-exhaustive streams x all partitions and random streams x schedule families.",
+    "level_note": "Trusted: Coq kernel; hand-written models of ScanMessages and of bufio.Scanner.Scan + chunking reader (validated by correspondence on every run); harness. No axioms. The error-with-data convention is proved when the reference segmentation does not end in TooLong (K1 shape).",
+    "technique": "Rocq proof by induction (fuel, geometry invariant) over Gallina models of ScanMessages and bufio.Scanner + exhaustive-partition/differential correspondence",
+    "props_file": "Props/C01.v",
+    "eval_module": "Run.EvalStream",
+    "imports": ["XS.Lib.Bufio"],
+    "kinds": {
+        "split": {"type": "case_split", "chk": "chk_split", "sig": "sig_split", "scope": "N_scope"},
+        "scan": {"type": "case_scan", "chk": "chk_scan", "sig": "sig_scan", "scope": "N_scope"},
+    },
+    "rule": "split: ScanMessages called directly on every string over {fa,ff,00,01,02,fe} up to length 4 (thorough 5), both atEOF values, header-prefixed variants, random prefixes of framed and arbitrary streams. scan: a real bufio.Scanner over the chunking reader: every stream over {fa,ff,00,01} up to length 4 (thorough 6) x EVERY partition into reads; corpus streams x every 2-cut; framed streams (noise without FA FF, payloads with FA/FF/FA FF, lengths biased to 0,1,253-256,2046-2048) and arbitrary streams (false headers, damaged frames) x schedule families (whole, all-ones, random chunks with empty reads incl. after the last byte, runs of 99/100 empty reads, cuts at each of the first 24 offsets) x terminal errors x both (n,err) conventions; the 64 KiB boundary. non-trivial (scan) = at least one token, an empty read, error-with-data, a non-EOF terminal or an explicit schedule; distinct = distinct case terms",
+    "trusted": STREAM_TRUSTED,
+    "assumptions": ["bufio.Scanner as shipped with the Go toolchain on PATH (1.23.5); Client uses it with the default buffer"],
+}
